@@ -157,8 +157,8 @@ class Gen:
             k = r.random()
             if method and k < 0.45:
                 a = self.pick(AN, MN + VN)
-                if a in sc.props_defined and not self.out():
-                    a = 'a0' if 'a0' not in sc.props_defined else 'zz9'
+                if sc.props_defined and r.random() < 0.3:
+                    a = r.choice(sorted(sc.props_defined))        # self.p = ... for a property p (setter call)
                 sc.selfnames.add(a)
                 if r.random() < 0.25:
                     body.append([3, [2, a], r.choice(['int', 'str', 'object']), [self.rhs_any()] if r.random() < 0.7 else None])
@@ -253,8 +253,8 @@ class Gen:
             else:
                 sc.props_defined.discard(name)
             out = [[0, name, decos, asy, body]]
-            if wrap == 3 and r.random() < 0.06:
-                out.append(self.expr_str())      # a string statement right after a property (known finding K2)
+            if wrap == 3 and r.random() < 0.15:
+                out.append(self.expr_str())      # a string statement right after a property: nobody's docstring
             return out
         if k < 0.36 and depth < self.max_depth:                          # class
             name = self.pick(CN, FN + VN)
@@ -300,7 +300,7 @@ class Gen:
             q = r.random()
             pv: Any = None
             if in_class and q < 0.12:
-                funs = [n for n, v in env.items() if v == ('fun', 0)]
+                funs = [n for n, v in env.items() if v[0] == 'fun' and v[1] in (0, 1, 2)]     # also re-wrapping a static/class method
                 if funs:
                     x = r.choice(funs)
                     w = r.choice(['staticmethod', 'classmethod'])
